@@ -223,6 +223,7 @@ type Obligation struct {
 	Model  string
 	Output string
 	Note   string
+	Reach  string // sat: the obligation's path condition is consistent with the assumptions in force; unsat: the obligation is vacuous
 }
 
 type Script struct {
@@ -390,6 +391,52 @@ func (s *Script) solveAll(timeoutS int, seed int, allSolvers bool) (solverErr st
 	}
 	wg.Wait()
 	return
+}
+
+// coverAll runs the reachability (cover) check behind every obligation: is its path condition consistent with the
+// assumptions in force where it was generated?  An obligation whose path condition is unsatisfiable is discharged
+// whatever its goal says.
+func (s *Script) coverAll(timeoutS int, seed int) {
+	if len(s.Obs) == 0 {
+		return
+	}
+	var b bytes.Buffer
+	b.WriteString("(set-option :produce-models false)\n(set-logic ALL)\n")
+	b.WriteString(prelude)
+	b.WriteString(s.Extra)
+	for _, d := range s.Decls {
+		b.WriteString(d)
+		b.WriteByte('\n')
+	}
+	ai := 0
+	for oi, o := range s.Obs {
+		for ; ai < o.NAsm; ai++ {
+			fmt.Fprintf(&b, "(assert %s)\n", s.Asms[ai].T)
+		}
+		fmt.Fprintf(&b, "(push 1)\n(assert %s)\n(echo \"@@ %d\")\n(check-sat)\n(pop 1)\n", o.PC, oi)
+	}
+	out, _ := runSolver(solvers[0], b.String(), timeoutS, seed, time.Duration(timeoutS*len(s.Obs)+30)*time.Second)
+	if d := os.Getenv("GCV_DUMP_COVER"); d != "" {
+		os.WriteFile(d, []byte(b.String()+"\n; ---- output\n"+out), 0o644)
+	}
+	cur := -1
+	for _, ln := range strings.Split(out, "\n") {
+		ln = strings.TrimSpace(ln)
+		if strings.HasPrefix(ln, "@@ ") || strings.HasPrefix(ln, "\"@@ ") {
+			f := strings.Fields(strings.Trim(ln, "\""))
+			cur = -1
+			if len(f) >= 2 {
+				if n, err := strconv.Atoi(f[1]); err == nil {
+					cur = n
+				}
+			}
+			continue
+		}
+		if cur >= 0 && cur < len(s.Obs) && (ln == "sat" || ln == "unsat" || ln == "unknown" || ln == "timeout") {
+			s.Obs[cur].Reach = ln
+			cur = -1
+		}
+	}
 }
 
 func firstLine(s string) string {
